@@ -288,18 +288,25 @@ def parse_reserved():
     m = re.match(r"\s*return\s*\((.*)\)\s*;\s*$", body, flags=re.S)
     if not m:
         fail("reservedFitsKeyword is not a single return")
-    pre = []
+    pre, exact = [], []
     for part in m.group(1).split("||"):
         mm = re.match(r'\s*strncmp\(\s*"([A-Z]+)"\s*,\s*key\s*,\s*(\d+)\s*\)\s*==\s*0\s*$', part)
-        if not mm or len(mm.group(1)) != int(mm.group(2)):
-            fail("reservedFitsKeyword: unrecognised disjunct " + part.strip())
-        pre.append(mm.group(1))
+        if mm and len(mm.group(1)) == int(mm.group(2)):
+            pre.append(mm.group(1)); continue
+        mm = re.match(r'\s*strcmp\(\s*"([A-Z]*)"\s*,\s*key\s*\)\s*==\s*0\s*$', part)
+        if mm:
+            exact.append(mm.group(1)); continue
+        fail("reservedFitsKeyword: unrecognised disjunct " + part.strip())
     h = open(os.path.join(VERIF, "harness", "C19_harness.cpp")).read()
     hm = re.search(r"static const char\* pre\[\]=\{([^}]*)\}", h)
     hpre = re.findall(r'"([A-Z]+)"', hm.group(1)) if hm else None
     if hpre != pre:
         fail("reserved-key prefixes in the source %r differ from the list restated in harness/C19_harness.cpp %r" % (pre, hpre))
-    return pre
+    hm = re.search(r"static const char\* exact\[\]=\{([^}]*)\}", h)
+    hex_ = re.findall(r'"([A-Z]*)"', hm.group(1)) if hm else []
+    if hex_ != exact:
+        fail("exactly-matched reserved keys in the source %r differ from the list restated in harness/C19_harness.cpp %r" % (exact, hex_))
+    return pre + ["=" + e for e in exact]
 
 def main():
     sizes = probe_sizes()
